@@ -316,6 +316,61 @@ def driver(ctx, rule="C02.driver"):
     ctx.floor(rule, 5)
 
 
+def _zero_tests(test):
+    """names v whose vanishing the test examines: v == 0, v != 0, abs(v) >= tol, abs(v - 1) >= tol, not v"""
+    out = set()
+    for c in ast.walk(test):
+        if isinstance(c, ast.Compare) and len(c.ops) == 1:
+            l, r = c.left, c.comparators[0]
+            if isinstance(r, ast.Constant) and r.value == 0 and isinstance(c.ops[0], (ast.Eq, ast.NotEq)):
+                out |= {x.id for x in ast.walk(l) if isinstance(x, ast.Name)}
+            if isinstance(c.ops[0], (ast.GtE, ast.Gt, ast.Lt, ast.LtE)) and isinstance(l, ast.Call) and \
+                    (dotted(l.func) or "").split(".")[-1] in ("abs", "absolute") and \
+                    (dotted(r) or "").endswith("_tol") or (isinstance(r, ast.Name) and "tol" in r.id and isinstance(l, ast.Call)):
+                out |= {x.id for x in ast.walk(l) if isinstance(x, ast.Name)} - {"np"}
+    return out
+
+
+def elision(ctx, rule="C02.elision"):
+    ctx.explain(f"{rule}: a decomposition product may be skipped only as an identity: wherever the emission of "
+                "Command(G(p, ...)) is control-dependent on a test that some value vanishes (v == 0, |v| < tol), the "
+                "first parameter p of the elided gate derives from that very value - a test on another quantity would "
+                "drop a non-trivial gate for special inputs.")
+    ops = op_classes(ctx.tree)
+    m = ctx.tree.module("ops.py")
+    funcs = [c.methods["_decompose"] for c in ops.values() if "_decompose" in c.methods] + \
+        [f for qn, f in m.functions.items() if f.cls is None and qn.endswith("_cmds")]
+    n = 0
+    for f in sorted(funcs, key=lambda x: x.qualname):
+        cfg = cfg_of(f.node)
+        for call in [x for x in walk_no_nested(f.node) if isinstance(x, ast.Call) and dotted(x.func) == "Command" and x.args]:
+            g = call.args[0]
+            if not (isinstance(g, ast.Call) and g.args):
+                continue
+            ids = cfg.node_of_expr(call)
+            if not ids:
+                continue
+            conds = cfg.branch_conditions(ids[0])
+            tested = set()
+            for h, lab in conds:
+                if cfg.node(h).kind == "if":
+                    tested |= _zero_tests(cfg.node(h).ast)
+            if not tested:
+                continue
+            n += 1
+            # all parameters of the gate taken together must depend on each tested value
+            d = set()
+            for a in g.args:
+                dv = derives(f.node, a, ids[0])
+                d |= {x.var for x in dv.defs} | dv.params | dv.free
+            missing = sorted(t for t in tested if t not in d and t not in ("drop_identity",))
+            ok = not missing
+            ctx.ob(rule, f.site, ok, "" if ok else f"`{ast.unparse(g)[:40]}` is emitted or skipped depending on whether "
+                   f"{missing} vanishes, but its parameters do not depend on {missing}: a non-identity gate is dropped for "
+                   "special inputs", role=f"elide:{ast.unparse(g)[:24]}", line=call.lineno)
+    ctx.floor(rule, 10)
+
+
 def product_units(ctx, rule="C02.product-units"):
     Hb.ops_frontend(ctx, rule, only_classes=("Xgate", "Zgate", "Gaussian", "Vgate"))
     ctx.floor(rule, 4)
@@ -327,4 +382,5 @@ def rules(ctx):
     targets(ctx)
     mesh_table(ctx)
     driver(ctx)
+    elision(ctx)
     product_units(ctx)
